@@ -2,18 +2,18 @@
    `good P b r` (Model.v): r is not a Panic, its explicit reservations total at most b bytes, and a
    returned value satisfies P. *)
 From ZV.Common Require Import Base.
-From ZV.C15 Require Import Model ProofsCore ProofsSeq ProofsLz ProofsPz ProofsHex ProofsAll.
+From ZV.C15 Require Import Model ProofsCore ProofsSeq ProofsLz ProofsPz ProofsHex ProofsIo ProofsAll.
 Open Scope N_scope.
 
-(* every modelled parser (36 entry points), every argument, every byte string shorter than 2^60:
-   the run is not a panic and reserves at most 8 bytes per input byte *)
+(* every modelled parser (39 entry points), every argument, every byte string shorter than 2^60:
+   the run is not a panic and reserves at most 8 bytes per input byte plus one 64 KiB chunk *)
 Theorem parser_total :
   forall pid arg data, In pid model_ids -> nlen data < 2 ^ 60 ->
-    exists r, run_model pid arg data = Some r /\ no_panic r /\ alloc_of r <= 8 * nlen data.
+    exists r, run_model pid arg data = Some r /\ no_panic r /\ alloc_of r <= 8 * nlen data + 65536.
 Proof. exact parser_total_proof. Qed.
 Check parser_total :
   forall pid arg data, In pid model_ids -> nlen data < 2 ^ 60 ->
-    exists r, run_model pid arg data = Some r /\ no_panic r /\ alloc_of r <= 8 * nlen data.
+    exists r, run_model pid arg data = Some r /\ no_panic r /\ alloc_of r <= 8 * nlen data + 65536.
 Print Assumptions parser_total.
 Example parser_total_nontrivial :
   run_model 34 0 [2; 2; 44; 1; 1; 7] = Some (Ok [300; 7]%Z 16).
@@ -114,6 +114,25 @@ Proof. exists [166; 145; 248; 255; 15; 0; 0]. split; [reflexivity | exact decode
 Check pazip_far2long_unfixed_refuted :
   exists data, nlen data = 7 /\ decode_match_top false data = Panic.
 Print Assumptions pazip_far2long_unfixed_refuted.
+
+(* length-prefixed byte strings (read_vec after fix 93ba69b): whatever the prefix says, one chunk is reserved *)
+Theorem length_prefixed_read_total :
+  forall data, good (fun _ => True) CHUNK (sdi_lp_bytes data) /\ good (fun _ => True) 0 (sdi_skip data).
+Proof. intros data. split; [apply sdi_lp_bytes_good | apply sdi_skip_good]. Qed.
+Check length_prefixed_read_total :
+  forall data, good (fun _ => True) CHUNK (sdi_lp_bytes data) /\ good (fun _ => True) 0 (sdi_skip data).
+Print Assumptions length_prefixed_read_total.
+Example length_prefixed_nontrivial :
+  sdi_lp_bytes [255; 255; 255; 255; 15; 1; 2] = Err 65536.
+Proof. vm_compute. reflexivity. Qed.
+
+(* Vec<u32> decoder (fix 129e061): at most 4096 elements reserved, output bounded by the input *)
+Theorem vec_u32_decode_total :
+  forall data, good (fun vs => nlen vs * 4 <= nlen data) (4 * PREALLOC_CAP) (vec_u32_dec data).
+Proof. exact vec_u32_dec_good. Qed.
+Check vec_u32_decode_total :
+  forall data, good (fun vs => nlen vs * 4 <= nlen data) (4 * PREALLOC_CAP) (vec_u32_dec data).
+Print Assumptions vec_u32_decode_total.
 
 (* hex: reserves half the input, output half the input; the slice variant stays inside the buffer *)
 Theorem hex_decode_total :
